@@ -257,6 +257,47 @@ codec_table! {
     "dict_u8_dict_u8_bool" => BTreeMap<u8, BTreeMap<u8, bool>>, |e, x| e.encode(&x), |d| d.decode();
 }
 
+/// The same value through the other implementations of EncodeInto the crate offers for its type (a borrowed primitive, a
+/// string slice, an element slice): every one of them must write what the primary one writes.
+macro_rules! alt_encodings {
+    ($name:expr, $v:expr; $( $n:literal => $ty:ty, |$e:ident, $x:ident| $enc:expr ;)*) => {
+        match $name {
+            $( $n => {
+                let $x: $ty = <$ty as J>::from_json($v);
+                let mut buf: Vec<u8> = Vec::new();
+                let r = {
+                    let mut $e = Encoder::from(&mut buf);
+                    $enc
+                };
+                Some(match r { Ok(()) => Ok(buf), Err(_) => Err(buf.len()) })
+            } )*
+            _ => None,
+        }
+    };
+}
+fn enc_alt(name: &str, v: &Value) -> Option<Result<Vec<u8>, usize>> {
+    alt_encodings! { name, v;
+        "bool" => bool, |e, x| e.encode(&x);
+        "u8" => u8, |e, x| e.encode(&x);
+        "i8" => i8, |e, x| e.encode(&x);
+        "u16" => u16, |e, x| e.encode(&x);
+        "i16" => i16, |e, x| e.encode(&x);
+        "u32" => u32, |e, x| e.encode(&x);
+        "i32" => i32, |e, x| e.encode(&x);
+        "u64" => u64, |e, x| e.encode(&x);
+        "i64" => i64, |e, x| e.encode(&x);
+        "f32" => f32, |e, x| e.encode(&x);
+        "f64" => f64, |e, x| e.encode(&x);
+        "string" => String, |e, x| e.encode(x.as_str());
+        "seq_u8" => Vec<u8>, |e, x| e.encode(x.as_slice());
+        "seq_bool" => Vec<bool>, |e, x| e.encode(x.as_slice());
+        "seq_i16" => Vec<i16>, |e, x| e.encode(x.as_slice());
+        "seq_string" => Vec<String>, |e, x| e.encode(x.as_slice());
+        "seq_seq_u8" => Vec<Vec<u8>>, |e, x| e.encode(x.as_slice());
+        "seq_seq_seq_bool" => Vec<Vec<Vec<bool>>>, |e, x| e.encode(x.as_slice());
+    }
+}
+
 fn to_bytes(v: &Value) -> Vec<u8> {
     v.as_array().map(|a| a.iter().map(|b| b.as_u64().unwrap_or(0) as u8).collect()).unwrap_or_default()
 }
@@ -272,6 +313,11 @@ pub fn observe_value(name: &str, v: &Value) -> Result<Value, Value> {
             Ok(json!({"ok": false}))
         }
         Ok(bytes) => {
+            if let Some(alt) = enc_alt(name, v) {
+                if alt.as_ref().ok() != Some(&bytes) {
+                    return Err(mismatch("the other EncodeInto implementation for this type (borrowed value / string slice / element slice) writes something else", json!(bytes), json!(alt)));
+                }
+            }
             // fixed slice of exactly the right size: same bytes; one byte less: error, guards intact
             let (ok, sb, guards) = enc_slice(name, v, bytes.len()).unwrap();
             let unordered = name.starts_with("hdict");
